@@ -158,7 +158,14 @@ func Worker(c workerCfg) int {
 		useed := sim.SeedFor(c.Seed, c.Prop, ui)
 		var uh uint64 = 1469598103934665603
 		u := &scen.Unit{Seed: useed, Tier: c.Tier, St: res.Stats}
+		u.Expired = func() bool {
+			return c.Secs > 0 && time.Since(start) > time.Duration(c.Secs)*time.Second+5*time.Second
+		}
 		u.Exec = func(forced map[string]int) *sim.Outcome {
+			if forced != nil && u.Expired() {
+				res.Stats.Inc("skipped_after_deadline")
+				return &sim.Outcome{}
+			}
 			t := sim.NewTape(useed)
 			t.Forced = forced
 			o, trouble := runTapeSafe(sc, t, res.Stats, false)
